@@ -83,6 +83,10 @@ def obj(index, db, rep):
     # the objective loop covers every month
     fors = [s for s in ast.walk(fn) if isinstance(s, ast.For) and any(
         isinstance(c, ast.Call) and dotted(c.func) == "self.add_maximize_min_month_objective_to_model" for c in ast.walk(s))]
+    if not fors:
+        # ... or the objective routine, called once, loops over every month itself (its constraint sits in that loop)
+        mm_ = index.func(OPT, "Optimizer.add_maximize_min_month_objective_to_model")
+        fors = [s for s in mm_.body if isinstance(s, ast.For) and any(isinstance(a_, ast.AugAssign) for a_ in ast.walk(s))]
     ok = len(fors) == 1 and isinstance(fors[0].iter, ast.Call) and \
         [norm_src(a) for a in fors[0].iter.args] in (["0", "self.NMONTHS"], ["self.NMONTHS"])
     rep.check(ok, rule, "objective-loop-range", "the max-min constraints are not added for every month 0..NMONTHS-1",
